@@ -106,6 +106,10 @@ ASSUME \A x, y \in {p \in EpDom : p.ts \in Exact /\ p.v \in 4..34} :
 ASSUME \A x, y \in {p \in EpDom : p.ts \in Exact /\ p.v \in 6..32}, ts2 \in Exact :
           ~S!InGap(S!Instant(x)) =>
              \A xv \in S!ConvSet(x, ts2) : S!ChronoCmp(S!Ep(ts2, xv), y) = S!ChronoCmp(x, y)
+\* C20: week / time of week: mutually inverse, the time of week below one week (scaled week = 8 ticks)
+ASSUME \A v \in 0..40 : LET p == S!ToTOW(v) IN p[1] >= 0 /\ p[2] \in 0..(S!NsWeek - 1) /\ S!FromTOW(p[1], p[2]) = v
+ASSUME \A wk \in 0..4, n \in 0..(S!NsWeek - 1) : (wk * S!NsWeek + n <= 40) => S!ToTOW(S!FromTOW(wk, n)) = <<wk, n>>
+ASSUME \A wk \in 0..9, n \in 0..30 : S!FromTOW(wk, n) = (IF wk * S!NsWeek + n > 40 THEN 40 ELSE wk * S!NsWeek + n)   \* saturates at MAX
 \* C04: differences invert addition in the same scale (away from saturation)
 ASSUME \A v \in -20..20, dd \in -19..19 :
           /\ S!DSub(S!DAdd(v, dd), v) = dd /\ S!DSub(S!DAdd(v, dd), dd) = v
